@@ -642,7 +642,35 @@ fn g_dec_lit() -> BS<Lit> {
         let exp = if frac.is_none() && exp.is_none() { Some((false, 0u8, "0".to_string())) } else { exp };
         Lit::Dec { sign, int_digits: i.to_string(), frac, exp }
     });
-    prop_oneof![6 => generic, 3 => halfway, 3 => shortest, 1 => overflow, 3 => boundary].boxed()
+    // the first k digits (k = 16..25) of the three magnitudes that decide
+    // overflow - f64::MAX, the rounding threshold f64::MAX + half an ulp, and
+    // 2^1024 - nudged in the last place: the fast path computes these with an
+    // error of a few ulps, which is exactly what decides between MAX and overflow
+    let threshold = (0u8..3, 16usize..=25, -3i64..=3, 0u8..3, any::<bool>()).prop_map(|(which, k, delta, sign, as_frac)| {
+        let base = match which {
+            0 => Big::from_u64((1u64 << 53) - 1).shl(971),
+            1 => Big::from_u64((1u64 << 54) - 1).shl(970),
+            _ => Big::from_u64(1).shl(1024),
+        };
+        let full = base.to_decimal();
+        let mut head = Big::from_digits(&full[..k], 10).unwrap();
+        if delta >= 0 {
+            head.add_small(delta as u32);
+        } else {
+            head = head.abs_diff(&Big::from_u64((-delta) as u64));
+        }
+        let digits = head.to_decimal();
+        let e10 = full.len() as i64 - k as i64;
+        if as_frac {
+            // d.ddd e308
+            let (i, f) = digits.split_at(1);
+            let e = e10 + f.len() as i64;
+            Lit::Dec { sign, int_digits: i.to_string(), frac: Some(f.to_string()), exp: Some((false, 0, e.to_string())) }
+        } else {
+            Lit::Dec { sign, int_digits: digits, frac: None, exp: Some((false, 0, e10.to_string())) }
+        }
+    });
+    prop_oneof![6 => generic, 3 => halfway, 3 => shortest, 1 => overflow, 3 => boundary, 1 => threshold].boxed()
 }
 
 pub fn g_lit() -> BS<(Lit, bool)> {
